@@ -441,6 +441,85 @@ def strip_rule(ctx, rep, fq: str, clause: str, by_design=('isotope_mods', 'stati
            f'`{fld}` is copied by slice() to every one-residue piece and read by mass(), but {short(fq)} neither pops '
            f'it before split(), nor overrides it in the mass() call, nor rejects it: it is counted once per residue',
            f.loc(), clause, {'fields_required': need})
+    # -- fields that slice() does not copy verbatim but whose content still reaches every piece ----------------------
+    mass_f = program.func('peptacular.mass_calc:mass')
+    sl = program.func(f'{PP}:ProFormaAnnotation.slice')
+    before_split = [n for n in walk_own(f.node) if isinstance(n, ast.Call) and isinstance(n.func, ast.Attribute) and
+                    getattr(n, 'lineno', 0) <= split_line]
+    called = {n.func.attr for n in before_split}
+    # (i) static rules: per-residue targets are right on every piece, but mass() applies the N-Term / C-Term targets
+    #     to whatever annotation it is given -- i.e. to every one-residue piece
+    terminal_targets = {c.args[0].value for c in walk_own(mass_f.node) if isinstance(c, ast.Call) and
+                        isinstance(c.func, ast.Attribute) and c.func.attr == 'get' and c.args and
+                        isinstance(c.args[0], ast.Constant) and c.args[0].value in ('N-Term', 'C-Term')}
+    if 'static_mods' in untouched and terminal_targets:
+        how = 'condensed into explicit modifications before the split' if 'condense_static_mods' in called else \
+            'popped before the split' if 'pop_static_mods' in called else \
+            'guarded by a raise' if 'static_mods' in guarded else None
+        ob(rep, 'STRIP', fq, 'terminal targets of static rules are made explicit before per-residue masses are summed',
+           how is not None, how or '',
+           f'slice() copies static_mods to every one-residue piece and mass() applies the {sorted(terminal_targets)} '
+           f'targets to any annotation it is given, but {short(fq)} neither condenses nor pops the static rules before '
+           f'split(): a terminal static rule is counted once per residue (`<[10]@N-Term>PEPTIDE`: +10 on every piece)',
+           f.loc(), clause)
+    # (ii) interval modifications: slice() re-creates an interval, with the modifications of the source interval,
+    #      in every piece that intersects it; mass() adds them for every interval it sees
+    replicated = False
+    for loop in walk_own(sl.node):
+        if isinstance(loop, ast.For) and norm_stmt(loop.iter) in ('self.intervals', 'self._intervals'):
+            for c in ast.walk(loop):
+                if isinstance(c, ast.Call) and isinstance(c.func, ast.Name) and c.func.id == 'Interval':
+                    kws = {kw.arg: kw.value for kw in c.keywords}
+                    if 'mods' in kws and any(isinstance(x, ast.Attribute) and x.attr == 'mods' for x in ast.walk(kws['mods'])):
+                        replicated = True
+    if replicated and 'intervals' in mass_reads:
+        site_ok = 'pop_intervals' in called or 'intervals' in guarded
+        how = 'popped before the split' if 'pop_intervals' in called else 'guarded by a raise' if 'intervals' in guarded \
+            else None
+        if how is None:
+            # the guard may sit in the callers: every caller rejects ambiguous sequences before the components are used
+            callers = [g for g in program.all_functions() if g.fq != fq and any(
+                isinstance(n, ast.Call) and isinstance(n.func, ast.Name) and n.func.id == f.name for n in walk_own(g.node))]
+
+            def rejects(g):
+                return any(isinstance(n, ast.If) and ('contains_sequence_ambiguity' in norm_stmt(n.test) or
+                                                      'has_intervals' in norm_stmt(n.test)) and
+                           any(isinstance(s_, ast.Raise) for s_ in n.body) for n in walk_own(g.node))
+
+            def delegates(g):
+                # a constructor that only caches the components: every other public method of the class hands them to
+                # a function that rejects
+                if g.cls is None or g.name != '__init__':
+                    return False
+                others = [m for n_, m in g.cls.methods.items() if not n_.startswith('_')]
+                return bool(others) and all(any(isinstance(n, ast.Call) and isinstance(n.func, ast.Name) and
+                                                program.find_func(f'{f.module.name}:{n.func.id}') is not None and
+                                                rejects(program.find_func(f'{f.module.name}:{n.func.id}'))
+                                                for n in walk_own(m.node)) for m in others)
+            if callers and all(rejects(g) or delegates(g) for g in callers):
+                how = f'rejected by every caller ({", ".join(sorted(short(g.fq) for g in callers))})'
+        ob(rep, 'STRIP', fq, 'interval modifications are neutralised before per-residue masses are summed',
+           how is not None, how or '',
+           f'slice() gives every one-residue piece inside an interval a copy of the interval with its modifications and '
+           f'mass() adds them, but {short(fq)} neither pops the intervals before split() nor rejects them: an interval '
+           f'modification is counted once per residue of the interval (`PE(PT)[Phospho]IDE`: two phosphates)',
+           f.loc(), clause)
+    # (iii) isotope labels: mass(piece) for a whole-peptide ion type adds the terminal groups (water for 'p') to every
+    #       piece, and a global label relabels them on every piece; only ion_type='n' has no terminal group
+    if 'isotope_mods' in untouched:
+        ion_types = []
+        for n in walk_own(f.node):
+            if isinstance(n, ast.Call) and isinstance(n.func, ast.Name) and n.func.id == 'mass':
+                kws = {kw.arg: kw.value for kw in n.keywords}
+                it = kws.get('ion_type')
+                ion_types.append(it.value if isinstance(it, ast.Constant) else 'p' if it is None else '?')
+        neutral = bool(ion_types) and all(t == 'n' for t in ion_types)
+        how = "per-piece masses are taken with ion_type='n' (no terminal group)" if neutral else \
+            'popped before the split' if 'pop_isotope_mods' in called else None
+        ob(rep, 'STRIP', fq, 'a global isotope label cannot reach terminal groups once per residue', how is not None,
+           how or '', f'{short(fq)} sums mass(piece) with ion type(s) {sorted(set(ion_types))} while the isotope label '
+           f'stays on every piece: the labelled terminal group (water for a precursor) is counted once per residue '
+           f'instead of once per peptide (`<18O>PEPTIDE`: seven labelled waters)', f.loc(), clause)
     return need
 
 
@@ -489,6 +568,33 @@ def shortcut_rule(ctx, rep, fq: str, clause: str):
     return n
 
 
+def label_aware_offsets(ctx, rep, clause):
+    """the per-residue components keep a global isotope label (their atoms are relabelled by mass()), but the ion-type
+    offset (-CO for a, +NH3 for c, +H2O for y, ...) is added afterwards by adjust_mass from the unlabelled tables: for
+    a labelled peptide the atoms gained or lost at the cleavage carry the label too, so the fragmenter must either
+    take label-aware offsets or refuse labels"""
+    program = ctx.program
+    t = rt.Tables(program)
+    comp = t['NEUTRAL_FRAGMENT_COMPOSITION_ADJUSTMENTS']
+    labelable = sorted({el for row in comp.values() for el, cnt in row.items() if cnt and el in ('C', 'N', 'O', 'H', 'S')})
+    site = program.func(f'{FR}:_get_mass_components')
+    keeps_label = not any(isinstance(n, ast.Call) and isinstance(n.func, ast.Attribute) and
+                          n.func.attr == 'pop_isotope_mods' for n in walk_own(site.node))
+    aware = False
+    for f in program.all_functions():
+        if f.module.name != FR:
+            continue
+        for n in walk_own(f.node):
+            if isinstance(n, ast.Attribute) and n.attr in ('isotope_mods', 'has_isotope_mods', '_isotope_mods'):
+                aware = True
+    ob(rep, 'STRIP', BUILD, 'ion-type offsets of a labelled peptide are label-aware', aware or not keeps_label or
+       not labelable, 'the fragmenter looks at the isotope label',
+       f'the mass components keep the global isotope label, but the ion-type offsets (which gain or lose '
+       f'{labelable}) are added from the unlabelled tables and nothing in fragmentation.py looks at the label: '
+       f'fragment("<13C>PEPTIDE", "a", 1) is 1.00335 heavier than mass() of the same ion, c/z differ for <15N>, '
+       f'y for <18O>', program.func(BUILD).loc(), clause)
+
+
 def short(fq):
     return fq.split(':')[1]
 
@@ -523,5 +629,6 @@ def check(ctx, rep):
     for f in sites:
         strip_rule(ctx, rep, f.fq, 'C04f')
         shortcut_rule(ctx, rep, f.fq, 'C04f')
+    label_aware_offsets(ctx, rep, 'C04f')
     from .common import memo_rule
     memo_rule(ctx, rep, 'C04g', ('peptacular.fragmentation', 'peptacular.mass_calc'))
